@@ -306,6 +306,10 @@ func (ch *channel) receivedSegData(rsd recSegData) {
 		if rsd.isLmsg {
 			log.Info("Received lsmg indicating last segment")
 		}
+		ch.mu.RLock()
+		nrTracks := uint32(len(ch.trDatas))
+		ch.mu.RUnlock()
+		ch.segTimesGen.setNrTracks(nrTracks) // every registered track, also one that has not delivered media yet
 		newSeqNr, err := ch.segTimesGen.addSegmentData(log, rsd)
 		if err != nil {
 			log.Error("Failed to add segment data", "err", err)
